@@ -54,7 +54,8 @@ CHECKS = {
         "every segment; every segment goes down and towards (never beyond) the receiver line; travel time = sum len/velocity and length = sum len; in a homogeneous "
         "medium a ray that reaches the receiver line has exactly the straight-line time to its end point, and sqrt(X^2+z^2) is 1-Lipschitz in z (tolerance bound). "
         "Tie: _tracerays (trace_layers on/off) co-executed with the binary64 instance (sqrt form, 2^-30 relative), the statement re-evaluated on the returned ray "
-        "coordinates, forward()/solved_angles on homogeneous media on the installed NumPy.",
+        "coordinates, forward()/solved_angles on homogeneous media on the installed NumPy with receiver arrays listed top-down, bottom-up, shuffled or holding one "
+        "receiver (every forward() call under a watchdog: termination of the angle search is observed, not proved).",
    note="Trusted: Coq kernel, stdlib real axioms; harness; sin(arcsin x)=x and cos(arcsin x)=sqrt(1-x^2) connect the code's angle form to the model's; the random "
         "angle refinement of _search_angles is exercised, not modelled.",
    technique="Coq proof (induction over layers, real analysis) + tolerance co-execution", ref="5/C18"),
@@ -99,10 +100,11 @@ CHECKS = {
    note="Trusted: Coq kernel, stdlib real axioms; harness. Coq's total ln makes the 'negative component => zero probability' clause an implementation-only check.",
    technique="Coq proof (list/real algebra) + interval-arithmetic and part-wise correspondence", ref="5/C13"),
  "C14": dict(
-   text="Seven theorems: normalised Normal (scalar/per-dimension) and Laplace misfits equal -ln of the textbook product densities for every dimension, parameters and "
-        "point; push-forward identities of the generate() constructions (mu+sigma z, mu+b z, base^x Jacobian, composite product, mixture convex combination). Tie: "
+   text="Eight theorems: normalised Normal (scalar/per-dimension) and Laplace misfits equal -ln of the textbook product densities for every dimension, parameters and "
+        "point; push-forward identities of the generate() constructions (mu+sigma z, mu+b z, base^x Jacobian, composite product, mixture convex combination); the constant as a sum of logarithms (the form the code evaluates since its repair) is the same number. Tie: "
         "misfit after normalize() inside the Coq-Interval enclosure of -ln pdf (constants recomputed in Coq, determinant as exact rational); generate(repeat, rng) with a "
-        "recording generator (which primitive, which parameters, image, shape, determinism); moment batches as search.",
+        "recording generator (which primitive, which parameters, image, shape, determinism); misfit at generated columns in 60-150 dimensions with parameters far "
+        "from one against the closed forms; moment batches as search.",
    note="Trusted: the textbook densities integrate to one and NumPy's sampling primitives have their documented laws (not mechanised); full-covariance case uses "
         "the determinant as data (exact rational computed by the harness).",
    technique="Coq proof (real analysis of log densities, push-forward identities) + interval correspondence + recorded-generator co-execution", ref="5/C14"),
